@@ -213,7 +213,9 @@ def op (st : St) (toks : List String) : St × String :=
   | ["add", id, v] =>
     match id.toNat?, parseVec v, splitTail post with
     | some id, some v, some (res, ent, ml, ch) =>
-      if id == 0 then (st, "UNSUPPORTED id0") else
+      -- id 0 is a legal id: the index stores the FIRST vector whose own id is 0 under key 0; a
+      -- later one would be stored under another key while its edges say 0 (not modelled, never generated)
+      if id == 0 && st.model.nextID != 0 then (st, "UNSUPPORTED second-vector-with-own-id-0") else
       let tomb := isDeleted st.mirror id && st.mirror.nodes.contains id
       if st.added.contains id && !tomb then (st, "UNSUPPORTED readd-live") else
       let st := noteEntry st
